@@ -113,6 +113,8 @@ pub struct Shared {
     pub updates: RefCell<Vec<UpdLog>>,
     /// hook invoked at every user-function invocation (crash points, deferred writes, reads)
     pub on_invoke: RefCell<Option<Box<dyn FnMut(&Inv)>>>,
+    pub armed: RefCell<Vec<Armed>>,
+    pub performed: RefCell<Vec<Performed>>,
 }
 
 #[derive(Clone, Debug)]
@@ -126,7 +128,26 @@ pub struct UpdLog {
 }
 
 impl Shared {
+    /// perform the writes armed for this trigger (one-shot)
+    pub fn fire(&self, trigger: Trigger, in_handler: bool) {
+        loop {
+            let a = {
+                let mut armed = self.armed.borrow_mut();
+                match armed.iter().position(|a| a.trigger == trigger) {
+                    Some(p) => armed.remove(p),
+                    None => break,
+                }
+            };
+            let (saw_old, fresh) = do_write(&a.handle, a.kind);
+            self.performed.borrow_mut().push(Performed { var: a.var, kind: a.kind, saw_old, fresh, in_handler });
+            // the closure's clone of the Var handle is dropped here, inside stabilise
+            drop(a);
+        }
+    }
     fn invoke(&self, key: NodeKey, args: Vec<SV>) {
+        if let NodeKey::Main(i) = key {
+            self.fire(Trigger::Node(i), false);
+        }
         let inv = Inv { round: self.round.get(), key, args };
         self.log.borrow_mut().push(inv.clone());
         let mut h = self.on_invoke.borrow_mut();
@@ -184,8 +205,98 @@ pub struct ObsSlot {
     pub state_unsub_after_gone: bool,
 }
 
+#[derive(Clone, Copy, Debug, PartialEq, Eq)]
+pub enum WKind {
+    Set,
+    Update,
+    Modify,
+    Replace,
+    ReplaceWith,
+}
+pub const WKINDS: [WKind; 5] = [WKind::Set, WKind::Update, WKind::Modify, WKind::Replace, WKind::ReplaceWith];
+const FN_UPDATE: u16 = 40;
+const FN_MODIFY: u16 = 41;
+const FN_REPLACE_WITH: u16 = 42;
+
+/// a write to be performed from inside a user function during stabilise
+pub struct Armed {
+    pub trigger: Trigger,
+    pub var: usize,
+    pub kind: WKind,
+    pub handle: Var<SV>,
+}
+#[derive(Clone, Copy, Debug, PartialEq, Eq)]
+pub enum Trigger {
+    Node(usize),
+    Handler(usize),
+}
+/// what a write performed inside stabilise did, as seen by the harness closure
+#[derive(Clone, Debug)]
+pub struct Performed {
+    pub var: usize,
+    pub kind: WKind,
+    /// the value the write operation showed to its closure / returned (None for set)
+    pub saw_old: Option<SV>,
+    pub fresh: Option<SV>,
+    pub in_handler: bool,
+}
+
+/// Perform one write with the public API; returns (old value shown/returned, fresh leaf used).
+pub fn do_write(v: &Var<SV>, kind: WKind) -> (Option<SV>, Option<SV>) {
+    match kind {
+        WKind::Set => {
+            let n = fresh();
+            v.set(n.clone());
+            (None, Some(n))
+        }
+        WKind::Update => {
+            let seen = Rc::new(RefCell::new(None));
+            let s2 = seen.clone();
+            v.update(move |old| {
+                *s2.borrow_mut() = Some(old.clone());
+                app(FN_UPDATE, &[old])
+            });
+            let o = seen.borrow().clone();
+            (o, None)
+        }
+        WKind::Modify => {
+            let seen = Rc::new(RefCell::new(None));
+            let s2 = seen.clone();
+            v.modify(move |x| {
+                *s2.borrow_mut() = Some(x.clone());
+                *x = app(FN_MODIFY, &[x.clone()]);
+            });
+            let o = seen.borrow().clone();
+            (o, None)
+        }
+        WKind::Replace => {
+            let n = fresh();
+            let old = v.replace(n.clone());
+            (Some(old), Some(n))
+        }
+        WKind::ReplaceWith => {
+            let old = v.replace_with(|x| app(FN_REPLACE_WITH, &[x.clone()]));
+            (Some(old), None)
+        }
+    }
+}
+
+/// effect of a write on the model value
+pub fn model_write(cur: &SV, kind: WKind, fresh_leaf: &Option<SV>) -> SV {
+    match kind {
+        WKind::Set | WKind::Replace => fresh_leaf.clone().unwrap(),
+        WKind::Update => app(FN_UPDATE, &[cur.clone()]),
+        WKind::Modify => app(FN_MODIFY, &[cur.clone()]),
+        WKind::ReplaceWith => app(FN_REPLACE_WITH, &[cur.clone()]),
+    }
+}
+
 #[derive(Clone, Debug, PartialEq, Eq)]
 pub enum Action {
+    WriteK(usize, WKind),
+    ArmWrite(usize, usize, WKind),
+    ArmHandlerWrite(usize, usize, WKind),
+    DropVar(usize),
     Stabilise,
     Write(usize),
     WriteSame(usize),
@@ -222,6 +333,14 @@ pub struct Ops {
     pub observe_smuggled: bool,
     pub subscribe_smuggled_only: bool,
     pub write_same: bool,
+    /// the five write operations instead of plain set
+    pub write_kinds: bool,
+    /// nodes whose function may perform an armed write
+    pub arm_nodes: Vec<usize>,
+    pub arm_handlers: bool,
+    pub drop_var: bool,
+    pub wkinds_outside: Vec<WKind>,
+    pub arm_vars: Vec<usize>,
 }
 
 #[derive(Clone, Default)]
@@ -236,6 +355,7 @@ pub struct Monitors {
     pub c10: bool,
     pub c11: bool,
     pub c06: bool,
+    pub c08: bool,
 }
 
 #[derive(Clone)]
@@ -274,6 +394,10 @@ pub struct World {
     pub c06_val: BTreeMap<usize, SV>,
     pub c06_pval: BTreeMap<usize, Pair>,
     pub written: BTreeSet<usize>,
+    pub var_dropped: BTreeSet<usize>,
+    pub dropped_vars: Vec<Var<SV>>,
+    pub arms_used: usize,
+    pub dropped_model: BTreeMap<usize, SV>,
 }
 
 thread_local! {
@@ -309,6 +433,8 @@ impl World {
             smuggled: RefCell::new(vec![]),
             updates: RefCell::new(vec![]),
             on_invoke: RefCell::new(None),
+            armed: RefCell::new(vec![]),
+            performed: RefCell::new(vec![]),
         });
         let mut w = World {
             cfg: cfg.clone(),
@@ -325,6 +451,10 @@ impl World {
             c06_val: BTreeMap::new(),
             c06_pval: BTreeMap::new(),
             written: BTreeSet::new(),
+            var_dropped: BTreeSet::new(),
+            dropped_vars: vec![],
+            arms_used: 0,
+            dropped_model: BTreeMap::new(),
         };
         for s in cfg.specs.clone() {
             w.build(s);
@@ -530,6 +660,49 @@ impl World {
         }
     }
 
+    /// Writes performed inside the stabilise that just returned: they were invisible to it
+    /// (checked by the C01/C02 monitors, which ran against the pre-stabilise model), compose
+    /// in program order, and are what the next stabilise propagates.
+    fn c08_after_stabilise(&mut self, round: u32) {
+        let performed: Vec<Performed> = self.sh.performed.borrow_mut().drain(..).collect();
+        let roots = self.live_roots();
+        let lb = self.sh.last_branch.borrow().clone();
+        let cone = self.cone(&roots, &|b| lb.get(&b).copied());
+        let mut touched_needed = false;
+        for p in &performed {
+            cover(if p.in_handler { "write-from-update-handler" } else { "write-from-node-function" });
+            let cur = self.vars.get(&p.var).map(|e| e.1.clone()).unwrap_or_else(|| self.dropped_model[&p.var].clone());
+            if let Some(o) = &p.saw_old {
+                let (o2, c2, k) = (o.clone(), cur.clone(), p.kind);
+                require("C08/deferred-write-saw-wrong-old-value", F::eq(o, &cur), move || format!("{k:?} inside stabilise #{round} showed/returned {o2:?}; program order gives {c2:?}"));
+            }
+            let new = model_write(&cur, p.kind, &p.fresh);
+            match self.vars.get_mut(&p.var) {
+                Some(e) => e.1 = new,
+                None => {
+                    cover("deferred-write-on-var-whose-last-handle-was-dropped");
+                    self.dropped_model.insert(p.var, new);
+                }
+            }
+            if cone.contains(&p.var) {
+                touched_needed = true;
+            }
+            self.dirty = true;
+        }
+        for (i, (v, m)) in &self.vars {
+            let got = v.get();
+            let (g2, m2) = (got.clone(), m.clone());
+            require("C08/get-after-stabilise", F::eq(&got, m), move || format!("var {i}: get() after stabilise #{round} returned {g2:?}, writes in program order give {m2:?}"));
+        }
+        let stable = self.state.is_stable();
+        if touched_needed && stable {
+            violation("C08/stable-after-deferred-write", format!("an observed variable was written inside stabilise #{round} but is_stable() is true"));
+        }
+        if performed.is_empty() && !stable {
+            violation("C08/unstable-without-pending-work", format!("is_stable() is false right after stabilise #{round} although nothing was written inside it"));
+        }
+    }
+
     fn c06_after_stabilise(&mut self, round: u32, log: &[Inv]) {
         let first = round == 1;
         let n = self.nodes.len();
@@ -698,7 +871,7 @@ impl World {
         }
         let f = i as u16;
         let v = match &self.nodes[i].spec {
-            Spec::Var => self.vars[&i].1.clone(),
+            Spec::Var => self.vars.get(&i).map(|e| e.1.clone()).unwrap_or_else(|| self.dropped_model[&i].clone()),
             Spec::PVar => panic!("symx: pair var has no scalar value"),
             Spec::Const => self.consts[&i].clone(),
             Spec::Map(a) | Spec::MapWithOld(a) => app(f, &[self.eval(*a, memo)]),
@@ -813,6 +986,39 @@ impl World {
         if self.dirty {
             v.push(Action::Stabilise);
         }
+        if o.write_kinds {
+            for (i, _) in &self.vars {
+                if self.var_dropped.contains(i) {
+                    continue;
+                }
+                for k in &o.wkinds_outside {
+                    v.push(Action::WriteK(*i, *k));
+                }
+                if o.drop_var && self.sh.armed.borrow().iter().any(|a| a.var == *i) {
+                    v.push(Action::DropVar(*i));
+                }
+            }
+            if self.sh.armed.borrow().len() + self.arms_used < 2 {
+                for (i, _) in &self.vars {
+                    if self.var_dropped.contains(i) || !o.arm_vars.contains(i) {
+                        continue;
+                    }
+                    for n in &o.arm_nodes {
+                        for k in WKINDS {
+                            v.push(Action::ArmWrite(*n, *i, k));
+                        }
+                    }
+                    if o.arm_handlers {
+                        for (k, s) in obs.iter().enumerate() {
+                            if !s.subs.is_empty() && s.subs[0].active {
+                                v.push(Action::ArmHandlerWrite(k, *i, WKind::Set));
+                                v.push(Action::ArmHandlerWrite(k, *i, WKind::Update));
+                            }
+                        }
+                    }
+                }
+            }
+        }
         if o.write {
             for (i, _) in &self.vars {
                 v.push(Action::Write(*i));
@@ -924,6 +1130,47 @@ impl World {
                 self.dirty = true;
                 self.written.insert(*i);
             }
+            Action::WriteK(i, k) => {
+                let (h, cur) = {
+                    let e = &self.vars[i];
+                    (e.0.clone(), e.1.clone())
+                };
+                let (saw, fr) = do_write(&h, *k);
+                drop(h);
+                if let Some(o) = saw {
+                    let (o2, c2) = (o.clone(), cur.clone());
+                    require("C08/write-saw-wrong-old-value", F::eq(&o, &cur), move || format!("{k:?} on var {i} showed/returned {o2:?}, the variable held {c2:?}"));
+                }
+                let new = model_write(&cur, *k, &fr);
+                let got = self.vars[i].0.get();
+                let (g2, n2) = (got.clone(), new.clone());
+                require("C08/get-after-write", F::eq(&got, &new), move || format!("get() after {k:?} returned {g2:?}, expected {n2:?}"));
+                self.vars.get_mut(i).unwrap().1 = new;
+                self.dirty = true;
+                self.written.insert(*i);
+            }
+            Action::ArmWrite(n, i, k) => {
+                let h = self.vars[i].0.clone();
+                self.sh.armed.borrow_mut().push(Armed { trigger: Trigger::Node(*n), var: *i, kind: *k, handle: h });
+                self.arms_used += 1;
+                self.dirty = true;
+            }
+            Action::ArmHandlerWrite(slot, i, k) => {
+                let h = self.vars[i].0.clone();
+                self.sh.armed.borrow_mut().push(Armed { trigger: Trigger::Handler(*slot), var: *i, kind: *k, handle: h });
+                self.arms_used += 1;
+                self.dirty = true;
+            }
+            Action::DropVar(i) => {
+                // the harness keeps the watch node (Incr) but gives up its Var handle; the only
+                // remaining Var handles are the ones held by armed writes
+                let (v, m) = self.vars.remove(i).unwrap();
+                drop(v);
+                self.dropped_model.insert(*i, m);
+                self.var_dropped.insert(*i);
+                cover("var-handle-dropped-with-write-armed");
+                self.dirty = true;
+            }
             Action::WriteSame(i) => {
                 let e = self.vars.get_mut(i).unwrap();
                 e.0.set(e.1.clone());
@@ -1007,6 +1254,7 @@ impl World {
                 let r = h.try_subscribe(move |u: Update<&SV>| {
                     let read = weak_obs.upgrade().and_then(|o| o.try_borrow().ok().and_then(|o| o[slot].handles.first().map(|h| h.try_get_value())));
                     sh.updates.borrow_mut().push(UpdLog { round: sh.round.get(), during_stabilise_call: sh.in_stabilise.get(), slot, sub: j, upd: u.cloned(), read });
+                    sh.fire(Trigger::Handler(slot), true);
                 });
                 drop(h);
                 match (st, r) {
@@ -1351,6 +1599,9 @@ impl World {
             self.c06_after_stabilise(round, &log);
         }
         self.written.clear();
+        if self.cfg.mon.c08 {
+            self.c08_after_stabilise(round);
+        }
         self.audit(true);
     }
 
@@ -1407,6 +1658,19 @@ impl World {
         if self.dirty {
             op_log("Stabilise".into());
             self.stabilise();
+        }
+        if self.cfg.mon.c08 {
+            // `while !is_stable() { stabilise() }` must end, with values consistent with the variables
+            let mut n = 0;
+            while !self.state.is_stable() {
+                n += 1;
+                if n > 4 {
+                    violation("C08/fixed-point-loop-does-not-end", "is_stable() still false after 4 further stabilises with no write armed".into());
+                    break;
+                }
+                op_log("Stabilise".into());
+                self.stabilise();
+            }
         }
     }
 }
